@@ -26,8 +26,7 @@ def main(tier, replay):
         "num_subsets / start_subset_num / start_subiteration_num / num_subiterations / randomise flag (rand() scripted) and malformed parameters; the subset number of "
         "every sub-iteration is recorded by a wrapping objective function (the real PoissonLogLikelihoodWithLinearModelForMeanAndProjData, balance test real or forced) "
         "and compared with the model's schedule, set-up failures (parameter ranges, unbalanced subsets) included; runs with randomised order that start inside an "
-        "iteration are executed in a child process (the library indexes an empty array there: known finding / fix C06-1), compared only as `ub` and from the next full "
-        "iteration on. `bp`/`fp`: BackProjectorByBin::back_project(ProjData, subset, n) and ForwardProjectorByBin::forward_project(ProjData, image, subset, n, zero=false) "
+        "iteration (which indexed an empty array before the repair bfafc063a) are ordinary runs: whole sequence compared, remaining sub-iterations of the first iteration distinct. `bp`/`fp`: BackProjectorByBin::back_project(ProjData, subset, n) and ForwardProjectorByBin::forward_project(ProjData, image, subset, n, zero=false) "
         "of the matrix projectors on 2..20 views x 1..3 rings x TOF(3/5 bins)/non-TOF x symmetry flags: every viewgram read / written is recorded by a wrapping ProjData and the "
         "(view, segment, TOF bin) lists are compared with the model. One line per operation, compared with the Lean model's answer; distinct = distinct (op) lines. "
         "Oracles on the implementation: (view,segment) multiplicities over all subsets; balanced flag = equal per-subset viewgram counts; every full iteration of a real run is a "
